@@ -109,9 +109,11 @@ func newEntry[T any](i T) *entry[T] {
 // value is present.
 // The ok result indicates whether value was found in the map.
 func (m *Map[K, V]) Load(key K) (value V, ok bool) {
+	verifYield("LD1")
 	read, _ := m.read.Load().(readOnly[K, V])
 	e, ok := read.m[key]
 	if !ok && read.amended {
+		verifLock(&m.mu, "LD2")
 		m.mu.Lock()
 		// Avoid reporting a spurious miss if m.dirty got promoted while we were
 		// blocked on m.mu. (If further loads of the same key will not miss, it's
@@ -126,6 +128,7 @@ func (m *Map[K, V]) Load(key K) (value V, ok bool) {
 			m.missLocked()
 		}
 		m.mu.Unlock()
+		verifUnlocked(&m.mu)
 	}
 	if !ok {
 		return typ.Zero[V](), false
@@ -134,6 +137,7 @@ func (m *Map[K, V]) Load(key K) (value V, ok bool) {
 }
 
 func (m *entry[T]) load() (value T, ok bool) {
+	verifYield("LD5")
 	p := atomic.LoadPointer(&m.p)
 	if p == nil || p == expunged {
 		return typ.Zero[T](), false
@@ -143,11 +147,13 @@ func (m *entry[T]) load() (value T, ok bool) {
 
 // Store sets the value for a key.
 func (m *Map[K, V]) Store(key K, value V) {
+	verifYield("ST1")
 	read, _ := m.read.Load().(readOnly[K, V])
 	if e, ok := read.m[key]; ok && e.tryStore(&value) {
 		return
 	}
 
+	verifLock(&m.mu, "SL")
 	m.mu.Lock()
 	read, _ = m.read.Load().(readOnly[K, V])
 	if e, ok := read.m[key]; ok {
@@ -164,11 +170,13 @@ func (m *Map[K, V]) Store(key K, value V) {
 			// We're adding the first new key to the dirty map.
 			// Make sure it is allocated and mark the read-only map as incomplete.
 			m.dirtyLocked()
+			verifYield("RS")
 			m.read.Store(readOnly[K, V]{m: read.m, amended: true})
 		}
 		m.dirty[key] = newEntry(value)
 	}
 	m.mu.Unlock()
+	verifUnlocked(&m.mu)
 }
 
 // tryStore stores a value if the entry has not been expunged.
@@ -177,10 +185,12 @@ func (m *Map[K, V]) Store(key K, value V) {
 // unchanged.
 func (m *entry[T]) tryStore(i *T) bool {
 	for {
+		verifYield("ST2")
 		p := atomic.LoadPointer(&m.p)
 		if p == expunged {
 			return false
 		}
+		verifYield("ST3")
 		if atomic.CompareAndSwapPointer(&m.p, p, unsafe.Pointer(i)) {
 			return true
 		}
@@ -192,6 +202,7 @@ func (m *entry[T]) tryStore(i *T) bool {
 // If the entry was previously expunged, it must be added to the dirty map
 // before m.mu is unlocked.
 func (m *entry[T]) unexpungeLocked() (wasExpunged bool) {
+	verifYield("UX")
 	return atomic.CompareAndSwapPointer(&m.p, expunged, nil)
 }
 
@@ -199,6 +210,7 @@ func (m *entry[T]) unexpungeLocked() (wasExpunged bool) {
 //
 // The entry must be known not to be expunged.
 func (m *entry[T]) storeLocked(i *T) {
+	verifYield("ST7")
 	atomic.StorePointer(&m.p, unsafe.Pointer(i))
 }
 
@@ -207,6 +219,7 @@ func (m *entry[T]) storeLocked(i *T) {
 // The loaded result is true if the value was loaded, false if stored.
 func (m *Map[K, V]) LoadOrStore(key K, value V) (actual V, loaded bool) {
 	// Avoid locking if it's a clean hit.
+	verifYield("LS1")
 	read, _ := m.read.Load().(readOnly[K, V])
 	if e, ok := read.m[key]; ok {
 		actual, loaded, ok := e.tryLoadOrStore(value)
@@ -215,6 +228,7 @@ func (m *Map[K, V]) LoadOrStore(key K, value V) (actual V, loaded bool) {
 		}
 	}
 
+	verifLock(&m.mu, "SL")
 	m.mu.Lock()
 	read, _ = m.read.Load().(readOnly[K, V])
 	if e, ok := read.m[key]; ok {
@@ -230,12 +244,14 @@ func (m *Map[K, V]) LoadOrStore(key K, value V) (actual V, loaded bool) {
 			// We're adding the first new key to the dirty map.
 			// Make sure it is allocated and mark the read-only map as incomplete.
 			m.dirtyLocked()
+			verifYield("RS")
 			m.read.Store(readOnly[K, V]{m: read.m, amended: true})
 		}
 		m.dirty[key] = newEntry(value)
 		actual, loaded = value, false
 	}
 	m.mu.Unlock()
+	verifUnlocked(&m.mu)
 
 	return actual, loaded
 }
@@ -246,6 +262,7 @@ func (m *Map[K, V]) LoadOrStore(key K, value V) (actual V, loaded bool) {
 // If the entry is expunged, tryLoadOrStore leaves the entry unchanged and
 // returns with ok==false.
 func (m *entry[T]) tryLoadOrStore(i T) (actual T, loaded, ok bool) {
+	verifYield("TL1")
 	p := atomic.LoadPointer(&m.p)
 	if p == expunged {
 		return typ.Zero[T](), false, false
@@ -259,9 +276,11 @@ func (m *entry[T]) tryLoadOrStore(i T) (actual T, loaded, ok bool) {
 	// shouldn't bother heap-allocating.
 	ic := i
 	for {
+		verifYield("TL2")
 		if atomic.CompareAndSwapPointer(&m.p, nil, unsafe.Pointer(&ic)) {
 			return i, false, true
 		}
+		verifYield("TL3")
 		p = atomic.LoadPointer(&m.p)
 		if p == expunged {
 			return typ.Zero[T](), false, false
@@ -275,9 +294,11 @@ func (m *entry[T]) tryLoadOrStore(i T) (actual T, loaded, ok bool) {
 // LoadAndDelete deletes the value for a key, returning the previous value if any.
 // The loaded result reports whether the key was present.
 func (m *Map[K, V]) LoadAndDelete(key K) (value V, loaded bool) {
+	verifYield("LA1")
 	read, _ := m.read.Load().(readOnly[K, V])
 	e, ok := read.m[key]
 	if !ok && read.amended {
+		verifLock(&m.mu, "LA2")
 		m.mu.Lock()
 		read, _ = m.read.Load().(readOnly[K, V])
 		e, ok = read.m[key]
@@ -290,6 +311,7 @@ func (m *Map[K, V]) LoadAndDelete(key K) (value V, loaded bool) {
 			m.missLocked()
 		}
 		m.mu.Unlock()
+		verifUnlocked(&m.mu)
 	}
 	if ok {
 		return e.delete()
@@ -304,10 +326,12 @@ func (m *Map[K, V]) Delete(key K) {
 
 func (m *entry[T]) delete() (value T, ok bool) {
 	for {
+		verifYield("DE1")
 		p := atomic.LoadPointer(&m.p)
 		if p == nil || p == expunged {
 			return typ.Zero[T](), false
 		}
+		verifYield("DE2")
 		if atomic.CompareAndSwapPointer(&m.p, p, nil) {
 			return *(*T)(p), true
 		}
@@ -329,12 +353,14 @@ func (m *Map[K, V]) Range(f func(key K, value V) bool) {
 	// present at the start of the call to Range.
 	// If read.amended is false, then read.m satisfies that property without
 	// requiring us to hold m.mu for a long time.
+	verifYield("RG1")
 	read, _ := m.read.Load().(readOnly[K, V])
 	if read.amended {
 		// m.dirty contains keys not in read.m. Fortunately, Range is already O(N)
 		// (assuming the caller does not break out early), so a call to Range
 		// amortizes an entire copy of the map: we can promote the dirty copy
 		// immediately!
+		verifLock(&m.mu, "RG2")
 		m.mu.Lock()
 		read, _ = m.read.Load().(readOnly[K, V])
 		if read.amended {
@@ -344,9 +370,11 @@ func (m *Map[K, V]) Range(f func(key K, value V) bool) {
 			m.misses = 0
 		}
 		m.mu.Unlock()
+		verifUnlocked(&m.mu)
 	}
 
 	for k, e := range read.m {
+		verifYield("RG3")
 		v, ok := e.load()
 		if !ok {
 			continue
@@ -362,6 +390,7 @@ func (m *Map[K, V]) missLocked() {
 	if m.misses < len(m.dirty) {
 		return
 	}
+	verifYield("ML")
 	m.read.Store(readOnly[K, V]{m: m.dirty})
 	m.dirty = nil
 	m.misses = 0
@@ -382,11 +411,14 @@ func (m *Map[K, V]) dirtyLocked() {
 }
 
 func (m *entry[T]) tryExpungeLocked() (isExpunged bool) {
+	verifYield("DL1")
 	p := atomic.LoadPointer(&m.p)
 	for p == nil {
+		verifYield("DL2")
 		if atomic.CompareAndSwapPointer(&m.p, nil, expunged) {
 			return true
 		}
+		verifYield("DL3")
 		p = atomic.LoadPointer(&m.p)
 	}
 	return p == expunged
